@@ -162,7 +162,9 @@ class ParsedDocstring(abc.ABC):
         """
         try:
             document = self.to_node()
-        except NotImplementedError:
+        except Exception:
+            # Including NotImplementedError, raised by the parsed docstrings that have no node tree.
+            # Any other failure of the conversion is reported when the docstring itself is rendered.
             return None
         contents = build_table_of_content(document, depth=depth)
         docstring_toc = new_document('toc')
